@@ -41,9 +41,9 @@ def c07_jobs(ctx, focus=()):
     for nm in search.all_names():
         for rep in range((1 if ctx.quick else 10) * ctx.boost + (4 if nm in focus else 0)):
             seed = r.choice([42, 0, 1, 7, 123456, 2**31 - 1, r.randint(0, 10**6)])
-            objs = ["sphere", "rastrigin", "step", "const"] if nm not in focus else ["const", "const", "step", "sphere"]    # const: every cost tied
+            objs = ["sphere", "rastrigin", "step", "const"] if nm not in focus else ["const", "const", "step", "sphere", "zero", "deadzone"]    # const / zero: every cost tied
             t = search.cont_task(obj=r.choice(objs), minmax=r.choice(["min", "max"]), seed=seed, dim=r.choice([2, 3]))
-            cfg = {"max_cycles": r.choice([2, 4]), "fitness_error": None}
+            cfg = {"max_cycles": r.choice([2, 4] if nm not in focus else [4, 12, 40]), "fitness_error": None}
             jobs.append(({"opt": nm, "cfg": cfg, "task": t}, {"opt": nm, "cfg": cfg, "task": t, "pre_draws": r.randint(1, 50)}))
     # the same seeded call twice on ONE instance reproduces itself (buffers kept across runs must not replace the seeded draws)
     for nm in (search.all_names() if not ctx.quick else r.sample(search.all_names(), 30) + [n for n in focus]):
@@ -117,10 +117,19 @@ def c07_decide(ctx, pairs, obs):
 
 
 # ------------------------------------------------------------------------------------------------ C08
-def c08_jobs(ctx):
+def c08_jobs(ctx, focus=()):
     from pyvolutionary import EarlyStopping  # noqa: F401
     r = ctx.rng
     jobs = []
+    # optimizers whose source changed: long low-dimensional runs (state that only matters once the swarm has converged), degenerate landscapes, several earlier runs
+    for nm in focus:
+        for _ in range(8):
+            dim = r.choice([1, 1, 2, 3])
+            last = search.cont_task(obj=r.choice(["sphere", "sphere", "deadzone", "step", "shifted"]), seed=r.randint(0, 10**6), dim=dim, lo=r.choice([-5.0, 0.0, -1e-6]), hi=r.choice([5.0, 1e-6 if dim else 5.0]))
+            if last["vars"][0][1][0][0] >= last["vars"][0][1][1][0]: last = search.cont_task(obj="sphere", seed=r.randint(0, 10**6), dim=dim, lo=-4.5e-7, hi=4.5e-7)
+            cfg = {"max_cycles": r.choice([10, 60, 200]), "fitness_error": None}
+            prev = [{"task": dict(last)} for _ in range(r.choice([1, 2]))]
+            jobs.append(({"opt": nm, "cfg": cfg, "task": last, "sequence": prev}, {"opt": nm, "cfg": cfg, "task": last}))
     for nm in search.all_names():
         for _ in range((1 if ctx.quick else 10) * ctx.boost):
             n_prev = r.choice([1, 1, 2])
@@ -164,9 +173,21 @@ def c08_decide(ctx, pairs, obs):
 
 
 # ------------------------------------------------------------------------------------------------ C09
-def c09_jobs(ctx):
+def c09_jobs(ctx, focus=()):
     r = ctx.rng
     jobs = []
+    # optimizers whose source changed: every parameter at the edge of its validator (documented population and a small one), longer runs, degenerate landscapes -
+    # a write to the caller's objects that happens only when a group collapses / a schedule reaches zero / everybody ties
+    from . import validators
+    for nm in focus:
+        P0 = search.fixture_scale(nm)["population_size"]
+        ecs = validators.edge_configs(nm, sizes=(P0,)) + validators.edge_configs(nm, sizes=(max(3, P0 // 2),))
+        for c in r.sample(ecs, min(len(ecs), 30)):
+            jobs.append({"opt": nm, "cfg": {**c, "max_cycles": r.choice([10, 30]), "fitness_error": None},
+                         "task": search.cont_task(obj=r.choice(["sphere", "rastrigin", "deadzone", "const"]), seed=r.randint(0, 10**6), minmax=r.choice(["min", "max"]), dim=r.choice([2, 3]))})
+        for _ in range(6):
+            jobs.append({"opt": nm, "cfg": {"max_cycles": r.choice([60, 150]), "fitness_error": None},
+                         "task": search.cont_task(obj=r.choice(["sphere", "deadzone", "step", "zero"]), seed=r.randint(0, 10**6), minmax=r.choice(["min", "max"]), dim=r.choice([1, 2, 3]))})
     for nm in search.all_names():
         for _ in range((1 if ctx.quick else 10) * ctx.boost):
             mode = r.choice([None, None, None, "thread", "process"]) if not ctx.quick else r.choice([None, None, None, None, "thread"])
@@ -223,10 +244,10 @@ def c12_jobs(ctx, names, focus=()):
     jobs = []
     for nm in names:
         for _ in range((1 if ctx.quick else 10) * ctx.boost + (5 if nm in focus else 0)):
-            obj = r.choice(["sphere", "rastrigin", "step", "shifted", "linear", "lognan"])
+            obj = r.choice(["sphere", "rastrigin", "step", "shifted", "linear", "lognan"] + (["deadzone", "deadzone", "zero", "neg:deadzone"] if nm in focus else []))
             seed = r.randint(0, 10**6); dim = r.choice([2, 3]); lo, hi = r.choice([(-10.0, 10.0), (0.0, 5.0), (-3.0, 1.0)])
             if obj == "lognan": lo, hi = -10.0, 10.0
-            cfg = {"max_cycles": r.choice([2, 4]), "fitness_error": None, "early_stopping": None}
+            cfg = {"max_cycles": r.choice([2, 4] if nm not in focus else [4, 10, 30]), "fitness_error": None, "early_stopping": None}
             jobs.append(({"opt": nm, "cfg": cfg, "task": search.cont_task(obj=obj, minmax="max", seed=seed, dim=dim, lo=lo, hi=hi)},
                          {"opt": nm, "cfg": cfg, "task": search.cont_task(obj="neg:" + obj, minmax="min", seed=seed, dim=dim, lo=lo, hi=hi)}))
         # the same duality for a weighted multi-objective task (every objective negated, same weights)
@@ -307,7 +328,7 @@ def perturbed(r, kwargs):
     return out
 
 
-def c18_jobs(ctx):
+def c18_jobs(ctx, focus=()):
     r = ctx.rng
     jobs = []
     for nm in search.all_names():
@@ -322,7 +343,7 @@ def c18_jobs(ctx):
         from . import validators
         P0 = search.fixture_scale(nm)["population_size"]
         ec1 = [c for c in validators.edge_configs(nm, sizes=(P0,)) if len(c) > 1]
-        for c in r.sample(ec1, min(len(ec1), (2 if ctx.quick else len(ec1)) * ctx.boost)):
+        for c in r.sample(ec1, min(len(ec1), (2 if (ctx.quick and nm not in focus) else len(ec1)) * ctx.boost)):
             t3 = search.cont_task(obj="sphere", seed=r.randint(0, 10**6))
             cfg3 = {"max_cycles": 3, "fitness_error": None}
             jobs.append(({"opt": nm, "cfg": cfg3, "task": t3, "first_cfg": {**c, "max_cycles": 2, "fitness_error": None}, "sequence": [{"task": search.cont_task(obj="rastrigin", seed=r.randint(0, 10**6))}]},
